@@ -2,6 +2,7 @@
 import json
 import os
 
+from harness.common import err_code
 from harness import blocks, codec, common
 
 JUNKS = [(0, 255), (0, 0x81), (37, 11), (101, 7)]       # all-0xFF, all-0x81 (undecodable in cp1252), two mixed
@@ -154,12 +155,63 @@ def check_container(chk):
     container.check_dontcare(chk)
 
 
+def check_text_tails(chk):
+    """every fixed-width text field of the format, through the decoder that owns it: the SAME bytes in front of the first
+    NUL with different bytes behind it (zeros, 0xFF, text-like remains of an older label, bytes cp1252 cannot decode) give
+    the same outcome — the same text, or, when the text part itself cannot be decoded, the same refusal.  Nothing behind
+    the terminator may turn a refusal into a text or one text into another."""
+    from harness import c13
+    rng = common.rng_for(chk.seed, "C12-tails")
+    try:
+        sites = c13.field_sites()
+    except Exception as e:
+        chk.violation("a record with valid short labels cannot be built or written: " + common.exc_info(e), {"site": "field_sites"}, False)
+        return
+    heads = [b"", b"Right Heel Strike", b"caf\xe9", b"chu\x9d", b"\x81", b"a\x8d\x8f b", b"\x90" * 5, b"x" * 20]
+    for name, w, make, decode in sites:
+        a, b = make("A" * (w - 1)), make("B" * (w - 1))
+        diff = [i for i in range(min(len(a), len(b))) if a[i] != b[i]]
+        if len(a) != len(b) or len(diff) != w - 1:
+            chk.violation("%s: the field does not occupy %d consecutive bytes of the record" % (name, w), {"site": name}, False)
+            continue
+        start = diff[0]
+        for head in heads:
+            room = w - len(head) - 1
+            if room < 2:
+                continue
+            tails = [b"\0" * room, b"\xff" * room, (b"rike (previous label)\0" * 20)[:room], (b"\x81\x9d" * w)[:room],
+                     bytes(rng.getrandbits(8) for _ in range(room)), b"\0" * (room - 1) + b"Z"]
+            want = common.run_model([(2, [w, list(head + b"\0" + tails[0])])])[0]
+            outcomes = []
+            for t in tails:
+                rec = a[:start] + head + b"\0" + t + a[start + w:]
+                try:
+                    outcomes.append([0, [ord(c) for c in decode(rec)]])
+                except Exception as e:
+                    outcomes.append([err_code(e)])
+            chk.count("one text, six tails behind its terminator: %s" % ("text" if outcomes[0][0] == 0 else "refused"))
+            chk.note_case(("text tails", name, head), True)
+            what = {"site": name, "width": w, "text_bytes": list(head), "outcomes": outcomes}
+            odd = next((k for k, o in enumerate(outcomes) if o != outcomes[0]), None)
+            if odd is not None:
+                chk.violation("%s: the text bytes %r read as %s with zeros behind the terminator and as %s with %r... behind it" % (
+                    name, head, shown(outcomes[0]), shown(outcomes[odd]), tails[odd][:12]), what, True)
+                return
+            if outcomes[0] != want:
+                chk.violation("%s: the text bytes %r read as %s, Str.v's read gives %s" % (name, head, shown(outcomes[0]), shown(want)),
+                              dict(what, correspondence="Str.v read"), False)
+
+
+def shown(o):
+    return repr("".join(map(chr, o[1]))[:40]) if o[0] == 0 else "an error (%d)" % o[0]
+
+
 def run(chk):
     chk.rule = ("valid blocks of all nine types: the model's free encoder writes the block with four junk patterns "
                 "(0xFF, 0x81, two position-dependent) in every don't-care position (reserved words, pads, the 256-byte "
                 "calibration pad, string tails); the library must decode each to the same fields as the zero-junk "
                 "encoding and re-encode to identical bytes of the same size; then every run of don't-care bytes filled with content that looks like something (the rest of a UTF-16 string, another NUL-terminated text, a second NUL then text, spaces, a BOM), also on blocks whose strings hold 0-3 characters and on blocks with hundreds of items / segments; same for the 8 capture blocks with their "
-                "don't-care positions (computed by the model) re-assigned; header/entries via the container module; "
+                "don't-care positions (computed by the model) re-assigned; header/entries via the container module; every fixed-width text field through the decoder that owns it: one text part (decodable or not) with six different tails behind its terminator must give one outcome; "
                 "non-trivial = more than 8 don't-care bytes")
     check_cases(chk, codec.load_corpus("C12"))
     n = 700 if chk.tier == "quick" else 12000
@@ -168,6 +220,7 @@ def run(chk):
     check_cases(chk, codec.large_count_cases(chk))           # e.g. one track with 310 segments: every per-track pad word
     check_capture(chk)
     check_container(chk)
+    check_text_tails(chk)
 
 
 def replay(chk, path):
@@ -177,4 +230,5 @@ def replay(chk, path):
     else:
         check_capture(chk)
         check_container(chk)
+        check_text_tails(chk)
     chk.rule = "replay of " + path
